@@ -134,6 +134,13 @@ private:
     for (unsigned int i = 0; i < l.size(); ++i) {
       interval_t intv = l[i];
 
+      if (intv.is_top()) {
+        // must be checked before the duplicate test: prev is
+        // initialized to top to mean "no previous interval".
+        is_bottom = false;
+        return list_intervals_t();
+      }
+
       if (prev == intv) {
         CRAB_LOG("disint", crab::outs() << "-- Normalize: duplicate"
                                         << "\n");
@@ -362,6 +369,10 @@ public:
     if (this->is_bottom()) {
       return true;
     } else if (o.is_bottom()) {
+      return false;
+    } else if (o.is_top()) {
+      return true;
+    } else if (this->is_top()) {
       return false;
     } else {
 
